@@ -723,11 +723,13 @@ func (e *ConcatExpression) Evaluate(ctx *Context, input system.Collection) (syst
 	}
 
 	// Convert empty collection to empty string
+	// (a fresh collection: appending could write into the spare capacity of a
+	// collection owned by the caller, e.g. an environment variable)
 	if len(leftResult) == 0 {
-		leftResult = append(leftResult, system.String(""))
+		leftResult = system.Collection{system.String("")}
 	}
 	if len(rightResult) == 0 {
-		rightResult = append(rightResult, system.String(""))
+		rightResult = system.Collection{system.String("")}
 	}
 
 	if len(leftResult) > 1 || len(rightResult) > 1 {
